@@ -94,6 +94,9 @@ class Speaker(metaclass=ABCMeta):
                 end = orb
             step = (end.date - begin.date) / 2
         else:
+            # 'end' may still be the sampled point itself (crossing within the last
+            # microsecond before it): flag a copy, never the sample
+            end = end.copy()
             end.event = listener.info(end)
             return end
 
